@@ -11,6 +11,10 @@ CHECKS = {
    text="Track trees of probe sounds (known positive signals, every process call logged) and probe effects (affine, non-commuting) are rendered through the real manager / renderer on the simulated device while a seeded history adds and removes tracks, sends and sounds, tweens volumes, pauses and resumes tracks. An executable reference mixer recomputes every device buffer from the harness-side mirror (exact point comparison with fixed gains, sound interval bounds while a gain may be mid-tween, exact silence where every contribution is zero); a second oracle checks the call log of every probe: every live sound / effect asked for every output frame exactly once, in order, in slices no longer than the internal buffer, and not at all when removed or paused.",
    note="Probe signals / effects are built on the public Sound / Effect traits; monotone (positive) signals make interval propagation sound; pause+resume of one track in one gap and partial subtree drops are left to C03 / C12.",
    technique="deterministic simulation against an executable reference mixer (refinement with interval-valued gains) + probe call-log invariants"),
+ "C05": dict(level="exploration", design="3 C05, appendix A.1",
+   text="Two simulated workloads. (ops) Clocks, clock commands, speed tweens (immediate, delayed, scheduled on other clocks) and clock-scheduled events (sound start, resume) run through the real manager on the simulated device next to a reference clock accumulating speed x dt once per internal chunk: handle times must equal the reference to 1e-9 ticks, each scheduled event must begin inside the internal buffer during which the reference clock reaches its time (never earlier, never later, never while paused), a sound waiting on a removed clock must become Stopped within two callbacks. (sched) An audio task and a reader task are interleaved by the seeded gate scheduler at the yield points inside the shared clock words; every value read must be one the clock had and could still show (regular-register semantics over stamped publish / read intervals), successive reads never go backwards.",
+   note="Two open known findings are listed (torn two-word time read; speed tween scheduled on the clock's own time never starts): while they are open the pair check is relaxed to a per-word check and own-clock schedules are not generated; their witnesses are replayed on every run. Interleavings are sequentially consistent at yield-point granularity.",
+   technique="deterministic simulation: reference clock model + scheduling-window oracle on the simulated device; seeded random thread schedules at guarded yield points with a regular-register history check"),
  "C06": dict(level="exploration", design="3 C06",
    text="kira::Parameter is driven update by update on a simulated audio clock (arbitrary partitions, start times immediate / delayed / on a simulated clock that pauses) for every tweenable type, next to the closed form start + (target - start) * ease(elapsed / duration): old value before the start, closed form during (one update of timing slack only where a start time has to be reached), exactly the target from the end on (strict when updates align with the duration), never outside [start, target], retargeting from the current value, previous_value() == last value(). A quarter of the cases read the per-frame gain envelope of a DC sound instead.",
    note="Clock start times are served by a MockInfo rebuilt per update; tolerance 1e-9 (f64 types) / 1e-5 (f32 types); quaternion slerp is not modelled.",
